@@ -156,15 +156,18 @@ func FromFloat64(f float64) Decimal {
 
 // FromInt converts i into a Decimal.
 func FromInt(i *big.Int) Decimal {
+	return fromInt(i, exponentBias, 0)
+}
+
+// fromInt converts i x 10**exp (exp biased) into a Decimal, where trunc is
+// non-zero if the exact value lies slightly above i in magnitude.
+func fromInt(i *big.Int, exp int16, trunc int8) Decimal {
 	neg := false
 	if sgn := i.Sign(); sgn == 0 {
 		return zero(false)
 	} else if sgn < 0 {
 		neg = true
 	}
-
-	exp := int16(exponentBias)
-	trunc := int8(0)
 
 	if bl := i.BitLen(); bl > 128 {
 		i = new(big.Int).Set(i)
@@ -254,7 +257,40 @@ func FromRat(r *big.Rat) Decimal {
 
 	denom := r.Denom()
 
-	return FromInt(num).Quo(FromInt(denom))
+	// Scale the numerator so that the integer quotient carries at least 38
+	// digits, divide exactly, and round once, keeping the remainder as a
+	// sticky flag. The decimal digit counts are estimated from the bit
+	// lengths (off by at most one either way).
+	nd := num.BitLen() * 30103 / 100000
+	dd := denom.BitLen() * 30103 / 100000
+
+	if nd-dd > maxUnbiasedExponent+maxDigits+2 {
+		return inf(num.Sign() < 0)
+	}
+
+	if nd-dd < minUnbiasedExponent-maxDigits-4 {
+		return zero(num.Sign() < 0)
+	}
+
+	k := 0
+	if k = 40 - (nd - dd); k < 0 {
+		k = 0
+	}
+
+	if k > 0 {
+		p := big.NewInt(int64(k))
+		p.Exp(big.NewInt(10), p, nil)
+		num = p.Mul(p, num)
+	}
+
+	quo, rem := new(big.Int).QuoRem(num, denom, new(big.Int))
+
+	trunc := int8(0)
+	if rem.Sign() != 0 {
+		trunc = 1
+	}
+
+	return fromInt(quo, int16(exponentBias-k), trunc)
 }
 
 // FromUint32 converts i into a Decimal.
